@@ -266,6 +266,15 @@ func (fv *FV) execAssign(st *State, x *ast.AssignStmt) {
 			continue
 		}
 		fv.assignTo(st, l, vals[i], define)
+		if i < len(x.Rhs) && len(x.Rhs) == len(x.Lhs) {
+			if lit, ok := ast.Unparen(x.Rhs[i]).(*ast.FuncLit); ok {
+				if id, ok := ast.Unparen(l).(*ast.Ident); ok {
+					if obj := fv.info.ObjectOf(id); obj != nil {
+						fv.closures[obj] = &closure{lit: lit, obj: obj, term: vals[i], inlined: inlinable(lit)}
+					}
+				}
+			}
+		}
 	}
 	if swapBag {
 		fv.inSwap = false
@@ -1203,33 +1212,42 @@ func (fv *FV) effects(st *State, nodes []ast.Node, body *ast.BlockStmt) *loopEff
 			}
 		}
 	}
-	for _, nd := range nodes {
-		ast.Inspect(nd, func(n ast.Node) bool {
-			switch y := n.(type) {
-			case *ast.FuncLit:
-				return false
-			case *ast.AssignStmt:
-				for _, l := range y.Lhs {
-					addLocal(l, y.Tok == token.DEFINE)
-					lhsWrite(l)
-				}
-			case *ast.IncDecStmt:
-				addLocal(y.X, false)
-				lhsWrite(y.X)
-			case *ast.RangeStmt:
-				if y.Tok == token.ASSIGN {
-					if y.Key != nil {
-						addLocal(y.Key, false)
-					}
-					if y.Value != nil {
-						addLocal(y.Value, false)
-					}
-				}
-			case *ast.CallExpr:
-				fv.callEffects(eff, y)
+	var inspect func(n ast.Node) bool
+	inspect = func(n ast.Node) bool {
+		switch y := n.(type) {
+		case *ast.FuncLit:
+			return false
+		case *ast.AssignStmt:
+			for _, l := range y.Lhs {
+				addLocal(l, y.Tok == token.DEFINE)
+				lhsWrite(l)
 			}
-			return true
-		})
+		case *ast.IncDecStmt:
+			addLocal(y.X, false)
+			lhsWrite(y.X)
+		case *ast.RangeStmt:
+			if y.Tok == token.ASSIGN {
+				if y.Key != nil {
+					addLocal(y.Key, false)
+				}
+				if y.Value != nil {
+					addLocal(y.Value, false)
+				}
+			}
+		case *ast.CallExpr:
+			if id, ok := ast.Unparen(y.Fun).(*ast.Ident); ok {
+				if cl := fv.closures[fv.info.ObjectOf(id)]; cl != nil && cl.inlined {
+					// a local closure that is inlined at its calls: its body's effects happen here
+					ast.Inspect(cl.lit.Body, inspect)
+					return true
+				}
+			}
+			fv.callEffects(eff, y)
+		}
+		return true
+	}
+	for _, nd := range nodes {
+		ast.Inspect(nd, inspect)
 	}
 	// variables declared inside the body are not live at the head
 	for o := range eff.locals {
